@@ -53,9 +53,10 @@ TFill   == /\ Ev.a = "Fill" /\ Ev.res = "full" /\ Clean
 \* Hold: a read-write handle on an existing file is opened and kept across the following calls; nothing changes
 THold   == /\ Ev.a = "Hold" /\ Clean /\ (Ev.res = "ok" => IsFile(Ev.p)) /\ Ev.res \in {"ok", "err"}       \* refused: e.g. the file does not exist
            /\ Api = tree /\ Api2 = tree /\ UNCHANGED vars
+TTruncDir == /\ Ev.a = "TruncDir" /\ Ev.res \in {"ok", "err"} /\ Clean /\ Api = tree /\ Api2 = tree /\ UNCHANGED vars
 TChurn  == /\ Ev.a = "Churn" /\ Ev.res = "ok" /\ Clean
            /\ Api = tree /\ Api2 = tree /\ UNCHANGED vars
-Match == Ev.panic = "" /\ (TMkdir \/ TCreate \/ TWrite \/ TAppend \/ TTrunc \/ TRename \/ TRenDir \/ TRemove \/ TFill \/ TChurn \/ THold)
+Match == Ev.panic = "" /\ (TMkdir \/ TCreate \/ TWrite \/ TAppend \/ TTrunc \/ TRename \/ TRenDir \/ TRemove \/ TFill \/ TChurn \/ TTruncDir \/ THold)
 
 InRange  == l <= Len(Trace)
 Step     == InRange /\ ~skip /\ Ev.a # "Reset" /\ Match /\ l' = l + 1 /\ UNCHANGED skip
